@@ -19,12 +19,14 @@ def bit (s : String) (pre : String) : Bool := s == pre ++ "1"
 def parseEntry (s : String) : Entry :=
   (s.splitOn ",").foldl (fun e t =>
     if t.startsWith "p" && (t.drop 1).toString.toNat?.isSome then { e with nameParts := (t.drop 1).toString.toNat?.getD 3 }
+    else if t.startsWith "nl" then { e with nameLong := bit t "nl" }
     else if t.startsWith "ne" then { e with nameEmpty := bit t "ne" }
     else if t.startsWith "ep" then { e with emptyPart := bit t "ep" }
     else if t.startsWith "x" then { e with exist := bit t "x" }
     else if t.startsWith "kv" then { e with kvNil := bit t "kv" }
     else if t.startsWith "kb" then { e with keyBad := bit t "kb" }
     else if t.startsWith "fn" then { e with fromNeg := bit t "fn" }
+    else if t.startsWith "lh" then { e with lockHeld := bit t "lh" }
     else if t.startsWith "k" then
       { e with keys := if t == "kN" then .nil else if t == "kE" then .empty else if t == "kF" then .firstEmpty else .ok }
     else if t.startsWith "iz" then { e with incZero := bit t "iz" }
